@@ -154,9 +154,9 @@ def run(chk):
         raise vlib.Inconclusive("too few export/import scripts (%d)" % len(scripts))
     rng = random.Random(chk.seed)
     rng.shuffle(scripts)
-    BIN[0] = vlib.build("root")
+    BIN[0] = vlib.build("root", race=not chk.quick)
     scens = scenarios()
-    per = 48 if chk.quick else 160
+    per = 48 if chk.quick else 150
     cases = []
     cursor = 0
     for si, (name, sc) in enumerate(scens):
@@ -208,7 +208,7 @@ def run(chk):
         fsc, extra = with_feature(sc, feat)
         for side in ("c", "s"):
             ccases.append(dict({"name": "%s/%s/corrupt-%s" % (name, fname, side), "scen": fsc, "side": side,
-                                "seed": rng.randint(1, 10 ** 9), "flips": 250 if chk.quick else 700,
+                                "seed": rng.randint(1, 10 ** 9), "flips": 250 if chk.quick else 800,
                                 "trunc": ci % 3 == 0 or not chk.quick, "extend": 6}, **extra))
     crow = run_corruption(chk, ccases)
     tried = rejected = useless = nonkey = unchanged = controls = 0
@@ -262,6 +262,7 @@ def run(chk):
                             "layouts x feature sets (quick: one feature set per layout, rotating with the seed); corruption: 12 (quick) / 51 layouts x both "
                             "sides x (all truncations, seeded flips, extensions); distinct = session names + corruption cases")
     chk.assumptions += [
+        "data races are observed by the Go race detector in the thorough tier only",
         "export happens at a quiescent point of the exported connection, which writes nothing afterwards (StaleImport = FALSE); the model shows that a "
         "connection that keeps writing after the snapshot reuses numbers",
         "the replay window is not part of the serialised state (DESIGN Appendix B 21): records accepted before the export are accepted again by the "
